@@ -10,7 +10,7 @@ ID = 'C08'
 LEVEL = 'exploration'
 RULE = ('every string <=L over a 24-symbol numeric alphabet, every case pattern and 1-edit neighbour of every keyword, '
         'every resolver first character x 2-character tail, the product of timestamp components, and int/float/date/datetime '
-        'value grids; each text is classified by the loader resolver, the dumper resolver and the C loader and constructed by '
+        'value grids, every timestamp fraction of 1..6 digits on load and every microsecond value on dump; each text is classified by the loader resolver, the dumper resolver and the C loader and constructed by '
         'SafeLoader and CSafeLoader, and compared with an independent hand-written YAML 1.1 recogniser/evaluator (O-ref11); '
         'dump side: safe_load(safe_dump(x)) for every text and value. non-trivial = O-ref11 classifies the text as non-str '
         '(or it is a value-grid member)')
@@ -38,7 +38,7 @@ def resolvers():
 
 def bounds(tier, seed):
     q = tier == 'quick'
-    return {'string_len': 4 if q else 5, 'len5_seed_slice': q, 'keyword_edits': 1, 'timestamp_product': 'full' if not q else 'seed-rotated slice of the zone/fraction axes + full core'}
+    return {'string_len': 4 if q else 5, 'len5_seed_slice': q, 'keyword_edits': 1, 'timestamp_fractions': 'all 1 111 110 digit strings of length 1..6; all 10^6 microsecond values dumped', 'timestamp_product': 'full' if not q else 'seed-rotated slice of the zone/fraction axes + full core'}
 
 
 def scans_as_plain(t, Loader):
@@ -145,6 +145,24 @@ def check_text(T, sub, t, dump=True):
                     continue
                 if type(back) is not str or back != t:
                     T.violation(sub, 'dump-str-roundtrip', case, detail='%s style=%r wrote %r which reads back as %r' % (dn, style, out, back))
+            # the same text as a str and as the value it looks like, side by side in one document and in one stream:
+            # each occurrence is classified on its own
+            if chosen not in ('str', 'value') and expected is not NO_VALUE:
+                for mk in (lambda: [expected, t, expected], lambda: [t, expected, t], lambda: {'a': expected, 'b': t}):
+                    w = mk()
+                    try:
+                        back = yaml.load(yaml.dump(w, Dumper=D), Loader=yaml.SafeLoader)
+                        seq = list(back.values()) if isinstance(back, dict) else list(back)
+                        backs = list(yaml.load_all(yaml.dump_all(list(w.values()) if isinstance(w, dict) else w, Dumper=D), Loader=yaml.SafeLoader))
+                    except Exception as e:
+                        T.violation(sub, 'dump-str-exception', case, detail='%s %r: %s(%s)' % (dn, w, type(e).__name__, str(e)[:150]))
+                        continue
+                    ws = list(w.values()) if isinstance(w, dict) else w
+                    for how, bs in (('dump', seq), ('dump_all', backs)):
+                        ok = len(bs) == len(ws) and all((type(b) is str and b == x) if type(x) is str else
+                                                        (type(b) is not str and ref11.values_equal(b, x, chosen, form)) for x, b in zip(ws, bs))
+                        if not ok:
+                            T.violation(sub, 'dump-mixed-roundtrip', case, detail='%s %s of %r reads back as %r' % (dn, how, ws, bs))
 
 
 def case_patterns(w):
@@ -271,9 +289,53 @@ def check_value(T, v):
                                     expected=repr(v), observed=repr(b))
 
 
+USEC_BLOCKS = 64
+
+
+def check_usec(T, block):
+    """every fraction of 1..6 digits (1 111 110 texts, split into 64 blocks): the timestamp '2001-12-14 21:59:43.<fraction>'
+    must load with microsecond = the fraction read as a decimal fraction of a second (digit string padded to 6 places - no
+    floating point involved); and every datetime with that microsecond value must dump to a text that loads back equal"""
+    D = datetime
+    fr = []
+    for digits in range(1, 7):
+        n = 10 ** digits
+        per = -(-n // USEC_BLOCKS)
+        fr += ['%0*d' % (digits, f) for f in range(block * per, min(n, (block + 1) * per))]
+    doc = ''.join('- 2001-12-14 21:59:43.%s\n' % f for f in fr)
+    want = [int(f.ljust(6, '0')) for f in fr]
+    for ln, L in (('SafeLoader', yaml.SafeLoader), ('CSafeLoader', yaml.CSafeLoader)):
+        T.evaluations += len(fr)
+        T.nontrivial += len(fr)
+        try:
+            got = yaml.load(doc, Loader=L)
+        except Exception as e:
+            T.violation('fractions', 'load-exception', {'block': block, 'loader': ln}, detail='%s raised %s(%s) on a list of timestamps' % (ln, type(e).__name__, str(e)[:150]))
+            continue
+        for f, w, g in zip(fr, want, got):
+            if type(g) is not D.datetime or g != D.datetime(2001, 12, 14, 21, 59, 43, w):
+                T.violation('fractions', 'value', {'text': '2001-12-14 21:59:43.' + f}, detail='%s: fraction .%s loads as %r, expected microsecond=%d' % (ln, f, g, w))
+    six = [w for f, w in zip(fr, want) if len(f) == 6]
+    vals = [D.datetime(2001, 12, 14, 21, 59, 43, w) for w in six]
+    for dn, Dm in (('SafeDumper', yaml.SafeDumper), ('CSafeDumper', yaml.CSafeDumper)):
+        T.evaluations += len(vals)
+        try:
+            out = yaml.dump(vals, Dumper=Dm)
+            back = yaml.load(out, Loader=yaml.SafeLoader if dn == 'SafeDumper' else yaml.CSafeLoader)
+        except Exception as e:
+            T.violation('fractions', 'dump-exception', {'block': block, 'dumper': dn}, detail='%s: %s(%s)' % (dn, type(e).__name__, str(e)[:150]))
+            continue
+        for v, b in zip(vals, back):
+            if type(b) is not D.datetime or b != v:
+                T.violation('fractions', 'value-roundtrip', {'value': repr(v)}, detail='%s wrote %r as part of a list; it reads back as %r' % (dn, v, b))
+        if len(back) != len(vals):
+            T.violation('fractions', 'value-roundtrip', {'block': block, 'dumper': dn}, detail='%d values written, %d read' % (len(vals), len(back)))
+
+
 def plan(tier, seed):
     q = tier == 'quick'
     jobs = []
+    jobs += [('usec', k) for k in range(USEC_BLOCKS)]
     jobs += [('ts', k, 36, (seed % 12) if q else None) for k in range(36)]
     jobs += gen.string_jobs('str', len(SIGMA), 4 if q else 5, plen=2)
     if q:
@@ -328,6 +390,9 @@ def run_job(job, T):
             if T.trace: T.begin({'text': s})
             check_text(T, 'numbers', s)
         T.sample('numbers', {'text': s})
+    elif kind == 'usec':
+        check_usec(T, job[1])
+        T.sample('fractions', {'block': job[1], 'of': USEC_BLOCKS})
     elif kind == 'values':
         for v in value_grid(job[1], job[2]):
             check_value(T, v)
@@ -337,7 +402,9 @@ def run_job(job, T):
 
 
 def replay(sub, case, T):
-    if 'text' in case:
+    if 'block' in case:
+        check_usec(T, case['block'])
+    elif 'text' in case:
         check_text(T, sub, case['text'])
     else:
         v = eval(case['value'], {'datetime': datetime, 'inf': float('inf'), 'nan': float('nan')})
